@@ -25,6 +25,11 @@ class Rejected(Exception):
     """the system rejected the input (outside the property's domain)"""
 
 
+class Crashed(Rejected):
+    """the system raised an internal (non-EdgeDBError) exception: the input was not accepted
+    either, so the properties about *accepted* migrations say nothing; counted separately"""
+
+
 def target_from_sdl(sdl_text):
     """the reference schema for an SDL document: apply_sdl on the standard
     library only (no migration machinery involved)"""
@@ -36,6 +41,8 @@ def target_from_sdl(sdl_text):
         return schema
     except S['errors'].EdgeDBError as e:
         raise Rejected(f'{type(e).__name__}: {e}') from e
+    except (LookupError, AssertionError, AttributeError, TypeError, ValueError, RecursionError) as e:
+        raise Crashed(f'internal {type(e).__name__}: {e}') from e
 
 
 def migrate(schema, sdl_text):
@@ -49,6 +56,8 @@ def migrate(schema, sdl_text):
             f'COMMIT MIGRATION;')
     except S['errors'].EdgeDBError as e:
         raise Rejected(f'{type(e).__name__}: {e}') from e
+    except (LookupError, AssertionError, AttributeError, TypeError, ValueError, RecursionError) as e:
+        raise Crashed(f'internal {type(e).__name__}: {e}') from e
 
 
 def run_ddl(schema, ddl_text):
@@ -57,6 +66,8 @@ def run_ddl(schema, ddl_text):
         return S['tb'].BaseSchemaTest.run_ddl(schema, ddl_text)
     except S['errors'].EdgeDBError as e:
         raise Rejected(f'{type(e).__name__}: {e}') from e
+    except (LookupError, AssertionError, AttributeError, TypeError, ValueError, RecursionError) as e:
+        raise Crashed(f'internal {type(e).__name__}: {e}') from e
 
 
 def last_migration_script(schema):
